@@ -199,7 +199,9 @@ def run(ctx):
     for shape in ((17, 17), (20, 13)) if quick else ((17, 17), (20, 13), (16, 16), (23, 29), (1, 300)):
         ctx.case(("many_points", shape), nontrivial=True)
         try:
-            det = hp.detector_grid(shape, 0.11)
+            # the farthest point stays within ~3 um of the axis, where 60 x 60 nodes are converged (a 1 x 300
+            # line at 0.11 um pitch reached k*rho = 420: beyond the analytic theory's cutoff and the quadrature)
+            det = hp.detector_grid(shape, min(0.11, 3.0 / max(shape)))
             sc = Sphere(n=1.2 * NMED, r=5.0 / K, center=(0.9, 0.7, 60.0 / K))
             kw = dict(medium_index=NMED, illum_wavelen=WL, illum_polarization=(math.cos(0.4), math.sin(0.4)))
             a = calc_field(det, sc, theory=MieLens(lens_angle=0.6, calculator_accuracy_kwargs={"interpolate_integrals": False}), **kw).values
